@@ -10,9 +10,11 @@
 //   Tok {k,name,na,nl,tl,in}                      one per token the pull interface reported: kind S E M T C K P D X,
 //                                                 number of attributes, longest name, longest text/attribute slice,
 //                                                 in = every string_view of the token lies inside the input buffer
-//   End {ok,off}                                  verdict of the pull interface, error offset
+//   End {ok,off,exc}                              verdict of the pull interface, error offset; exc = "pull:<type>" if an exception
+//                                                 escaped next() (the parser reports errors through error(), it must not throw)
 //   Dec {raw,ok,out}                              Parser::decodeEntities on one slice (bytes in, bytes out)
-//   Api {id,pok,ptoks,sok,stoks,dok,dtoks,pdtoks,decok,expanded,off,n}
+//   Api {id,pok,ptoks,sok,stoks,dok,dtoks,pdtoks,decok,expanded,off,n,exc}   exc = first exception that escaped pull / sax / dom
+//        limits in Doc are clamped to 2^30 (clampLim); the case line carries them as decimal size_t up to SIZE_MAX
 //        canonical token lists (see XmlDoc.tla): ptoks from the pull interface, stoks from SAX, dtoks from a walk of the
 //        DOM, pdtoks = the pull tokens with every value decoded (what the DOM should hold).  White-space-only text,
 //        the XML declaration (or a PI named xml) and the DOCTYPE are left out; PI data is stripped of leading white space.
@@ -21,7 +23,9 @@
 #include "parsers_run.hpp"
 #include "vf/exec.hpp"
 #include "vf/trace.hpp"
+#include <new>
 #include <set>
+#include <stdexcept>
 
 namespace x = iora::parsers::xml;
 
@@ -207,6 +211,22 @@ static std::string join(const std::vector<std::string> &v)
   return o;
 }
 static long clampOff(size_t v) { return v > (1u << 30) ? (1 << 30) : (long)v; }
+// limits are size_t (up to SIZE_MAX); TLC's integers are 32-bit: logged exactly below 2^30, as 2^30 from there on (every
+// measure of a document the driver is given is far below, so every comparison with a measure keeps its truth value; the
+// same clamp is the `abs` field of spec/parsers/XmlLimits.tla)
+static long clampLim(size_t v) { return v > (size_t(1) << 30) ? (long(1) << 30) : (long)v; }
+static std::string excName(const char *where, const std::exception *e)
+{
+  std::string o = where;
+  o += ":";
+  if (!e) return o + "unknown";
+  if (dynamic_cast<const std::length_error *>(e)) return o + "std::length_error";
+  if (dynamic_cast<const std::bad_alloc *>(e)) return o + "std::bad_alloc";
+  if (dynamic_cast<const std::out_of_range *>(e)) return o + "std::out_of_range";
+  if (dynamic_cast<const std::logic_error *>(e)) return o + "std::logic_error";
+  if (dynamic_cast<const std::runtime_error *>(e)) return o + "std::runtime_error";
+  return o + "std::exception";
+}
 
 static std::string runCase(const std::string &line)
 {
@@ -216,22 +236,25 @@ static std::string runCase(const std::string &line)
   long id = atol(w[1].c_str());
   const std::string &flags = w[2];
   x::Options opt;
-  opt.maxDepth = strtoul(w[3].c_str(), nullptr, 10);
-  opt.maxAttrsPerElement = strtoul(w[4].c_str(), nullptr, 10);
-  opt.maxNameLength = strtoul(w[5].c_str(), nullptr, 10);
-  opt.maxTextSpan = strtoul(w[6].c_str(), nullptr, 10);
-  opt.maxTotalTokens = strtoul(w[7].c_str(), nullptr, 10);
+  static_assert(sizeof(std::size_t) == sizeof(unsigned long long), "limits are read as 64-bit decimal numbers");
+  opt.maxDepth = strtoull(w[3].c_str(), nullptr, 10);
+  opt.maxAttrsPerElement = strtoull(w[4].c_str(), nullptr, 10);
+  opt.maxNameLength = strtoull(w[5].c_str(), nullptr, 10);
+  opt.maxTextSpan = strtoull(w[6].c_str(), nullptr, 10);
+  opt.maxTotalTokens = strtoull(w[7].c_str(), nullptr, 10);
+  std::string exc; // first exception that escaped one of the interfaces ("" = none): the parser reports errors through error()
   std::string doc = unhex(w[8]);
   ExactBuf b(doc);
-  tr.add(vf::Ev("Doc").i("id", id).i("n", (long)b.n).i("ld", (long)opt.maxDepth).i("la", (long)opt.maxAttrsPerElement).i("ln", (long)opt.maxNameLength).i("lt", (long)opt.maxTextSpan).i("lk", (long)opt.maxTotalTokens));
+  tr.add(vf::Ev("Doc").i("id", id).i("n", (long)b.n).i("ld", clampLim(opt.maxDepth)).i("la", clampLim(opt.maxAttrsPerElement)).i("ln", clampLim(opt.maxNameLength)).i("lt", clampLim(opt.maxTextSpan)).i("lk", clampLim(opt.maxTotalTokens)));
   // ---- pull
   std::vector<std::string> ptoks, pdtoks;
   bool decok = true, expanded = false;
   int rawMarkers = 0; // occurrences of the marker in the slices outside the DOCTYPE
   std::set<std::string> decSeen;
   std::vector<std::string> decEvents;
-  bool pok;
+  bool pok = false;
   long off = 0;
+  try
   {
     x::Parser p(b.view(), opt);
     int guard = 0;
@@ -272,12 +295,25 @@ static std::string runCase(const std::string &line)
     }
     pok = p.error() == nullptr;
     if (!pok) off = clampOff(p.error()->offset);
-    tr.add(vf::Ev("End").b("ok", pok).i("off", off));
+    tr.add(vf::Ev("End").b("ok", pok).i("off", off).str("exc", ""));
+  }
+  catch (const std::exception &e)
+  {
+    pok = false;
+    if (exc.empty()) exc = excName("pull", &e);
+    tr.add(vf::Ev("End").b("ok", false).i("off", 0).str("exc", exc));
+  }
+  catch (...)
+  {
+    pok = false;
+    if (exc.empty()) exc = excName("pull", nullptr);
+    tr.add(vf::Ev("End").b("ok", false).i("off", 0).str("exc", exc));
   }
   for (auto &d : decEvents) tr.addLine(d);
   // ---- SAX
   std::vector<std::string> stoks;
-  bool sok;
+  bool sok = false;
+  try
   {
     x::Parser p(b.view(), opt);
     x::SaxCallbacks cb;
@@ -293,9 +329,20 @@ static std::string runCase(const std::string &line)
     cb.onPI = [&](const x::Token &t) { if (t.kind != x::TokenKind::ProcessingInstruction) stoks.push_back("!wrong-callback"); add(t); };
     sok = x::runSax(p, cb);
   }
+  catch (const std::exception &e)
+  {
+    sok = false;
+    if (exc.empty()) exc = excName("sax", &e);
+  }
+  catch (...)
+  {
+    sok = false;
+    if (exc.empty()) exc = excName("sax", nullptr);
+  }
   // ---- DOM
   std::vector<std::string> dtoks;
-  bool dok;
+  bool dok = false;
+  try
   {
     x::Parser p(b.view(), opt);
     x::Error err;
@@ -305,7 +352,19 @@ static std::string runCase(const std::string &line)
     if (dok) domWalk(*root, dtoks, domMarkers);
     if (domMarkers > rawMarkers) expanded = true; // the DOM holds the replacement text although the document does not
   }
-  tr.add(vf::Ev("Api").i("id", id).i("n", (long)b.n).i("off", off).b("pok", pok).str("ptoks", join(ptoks)).b("sok", sok).str("stoks", join(stoks)).b("dok", dok).str("dtoks", join(dtoks)).str("pdtoks", decok ? join(pdtoks) : "").b("decok", decok).b("expanded", expanded));
+  catch (const std::exception &e)
+  {
+    dok = false;
+    dtoks.clear();
+    if (exc.empty()) exc = excName("dom", &e);
+  }
+  catch (...)
+  {
+    dok = false;
+    dtoks.clear();
+    if (exc.empty()) exc = excName("dom", nullptr);
+  }
+  tr.add(vf::Ev("Api").i("id", id).i("n", (long)b.n).i("off", off).b("pok", pok).str("ptoks", join(ptoks)).b("sok", sok).str("stoks", join(stoks)).b("dok", dok).str("dtoks", join(dtoks)).str("pdtoks", decok ? join(pdtoks) : "").b("decok", decok).b("expanded", expanded).str("exc", exc));
   return tr.text();
 }
 
